@@ -949,6 +949,68 @@ impl Mutator<'_, '_, '_> {
     }
 }
 
+/// After a type-breaking mutation a literal may sit next to a field of another
+/// type.  If its *text* could also be read as a literal of that type (`255` or
+/// `10/8` as a short IPv4 form inside a set - the CIDR parser accepts those -,
+/// `12.34.56.78` as hex pairs, eight two-digit groups as IPv6, ...), what the
+/// parser must do is not fixed by the documented rules: such cases are skipped.
+fn ambiguous_literal(r: &Recipe, e: &MExpr) -> bool {
+    fn could_be(text: &str, t: &MType, in_set: bool) -> bool {
+        let hexish = |s: &str| !s.is_empty() && s.chars().all(|c| c.is_ascii_hexdigit() || ":./-".contains(c));
+        match t {
+            MType::Bytes => {
+                // HH (sep HH)+
+                let b = text.as_bytes();
+                b.len() >= 5 && b.len() % 3 == 2 && b.chunks(3).all(|c| c[0].is_ascii_hexdigit() && c[1].is_ascii_hexdigit() && (c.len() == 2 || b":.-".contains(&c[2])))
+            }
+            MType::Ip => text.parse::<std::net::IpAddr>().is_ok() || (in_set && hexish(text)),
+            MType::Int => {
+                let t = text.strip_prefix('-').unwrap_or(text);
+                (!t.is_empty() && t.chars().all(|c| c.is_ascii_digit())) || (t.starts_with("0x") && t[2..].chars().all(|c| c.is_ascii_hexdigit()))
+            }
+            _ => false,
+        }
+    }
+    fn index(r: &Recipe, ix: &MIndex) -> bool {
+        match &ix.base {
+            MBase::Field(_) => false,
+            MBase::Call { args, .. } => args.iter().any(|a| match a {
+                MArg::Index(i) => index(r, i),
+                MArg::Lit(_) => false,
+                MArg::Logical(e) => ambiguous_literal(r, e),
+            }),
+        }
+    }
+    match e {
+        MExpr::Cmp { lhs, op } => {
+            if index(r, lhs) {
+                return true;
+            }
+            let Ok(t) = typeck::index_type(r, lhs) else { return false };
+            match op {
+                MOp::Ord(_, l) => l.ty() != t && could_be(&l.text(), &t, false),
+                MOp::BitAnd(l) => t != MType::Int && could_be(&l.text(), &t, false),
+                MOp::Contains(b) => t != MType::Bytes && could_be(&b.text(), &t, false),
+                MOp::In(items) => items.iter().any(|i| {
+                    let it = match i {
+                        SetItem::Int(_) | SetItem::IntRange(..) => MType::Int,
+                        SetItem::Bytes(_) => MType::Bytes,
+                        _ => MType::Ip,
+                    };
+                    it != t && could_be(&i.text(), &t, true)
+                }),
+                _ => false,
+            }
+        }
+        MExpr::Not(a) | MExpr::Paren(a) => ambiguous_literal(r, a),
+        MExpr::Comb { items, .. } => items.iter().any(|i| ambiguous_literal(r, i)),
+        MExpr::Quant { arg, .. } => match &**arg {
+            MQArg::Index(ix) => index(r, ix),
+            MQArg::Logical(e) => ambiguous_literal(r, e),
+        },
+    }
+}
+
 fn random_case(ch: &mut Choices<'_>, st: &mut Stats) -> CaseResult {
     let cfg = GenCfg { max_depth: 4, ..GenCfg::full() };
     let mut gen_ = Gen::new(ch, cfg);
@@ -974,6 +1036,11 @@ fn random_case(ch: &mut Choices<'_>, st: &mut Stats) -> CaseResult {
     let lists = g::gen_lists(gen_.ch, &recipe, &hints);
     let ctxs: Vec<MCtx> = (0..4).map(|_| g::gen_ctx(gen_.ch, &recipe, &hints)).collect();
     let well = typeck::filter_ok(&recipe, &expr).is_ok();
+    if !well && ambiguous_literal(&recipe, &expr) {
+        st.excluded();
+        st.class("excluded-literal-text-ambiguous-after-mutation");
+        return Ok(());
+    }
     let r = check_expr(&recipe, &expr, &ctxs, &lists, st, if well { "random-well-typed" } else { "random-ill-typed" });
     for a in &applied {
         st.class(&format!("mutation-{a}"));
@@ -1049,7 +1116,7 @@ pub fn run(run: &Run) {
          non-trivial = each distinct input text (every cell / mutated filter counts once)",
     );
     run.assume("the undocumented typings (bare Map(Bool) as a logical operand) are only required to be safe when accepted, not to be accepted or rejected");
-    run.assume("mutated literals come from pools whose text is not a valid literal of another kind");
+    run.assume("mutated literals come from pools whose text is not a valid literal of another kind; a mutated filter in which an existing literal's text could also be read as a literal of the new field type (short IPv4 forms such as `255` or `10/8` inside a set, `12.34.56.78` as hex pairs, ...) is skipped and counted as excluded");
     let subs = subs();
     run_regressions(run, &subs);
     let n = text_cases().len() as u64;
